@@ -7,24 +7,31 @@ from vlib import core
 META = {
     "disabled": False,
     "level": "model_checking",
-    "level_text": "MpqBuild.tla models ArchiveBuilder::write_file / add_to_hash_table / calculate_file_key and Archive::find_file / "
+    "level_text": "MpqBuild.tla models ArchiveBuilder::write_file / add_to_hash_table / key derivation and Archive::find_file / "
                   "read_file / read_sectored_file as one state machine over abstract contents: single-unit vs sectored, the per-unit "
-                  "store-raw rule (CodecDefs), the flag word, block entries, FIX_KEY key derivation with the MpqCrypto reference hash, "
-                  "hash-table insertion and lookup by linear probing under four spellings of real byte-string names, absent names sharing a "
-                  "home slot, the V3/V4 lookup path as actions (HetProbe, BetVerify, ClassicFallback, Deliver) with lookup3 / one-at-a-time BET "
-                  "hashes, HET/BET table compression, the reader's branch / shortcut / per-sector test, the codec limits and Err->zeros. TLC checks exhaustively "
-                  "(sector size 4, 3 files, 8 lengths x 3 compressibility classes x 6 methods x 3 encryption modes x crc; plus sector size "
-                  "4096 for the limit region; plus the FlagFix=TRUE variant) that the reader re-derives the writer's layout, keys agree, every "
-                  "spelling finds its block, absent names are not found, and every read is exact outside NAMED deviations (negative control: "
-                  "TLC must find the F-C01-a counterexample on the as-is model). TLC then enumerates archive configurations "
-                  "(version x shift x method x enc x crc x attrs x listfile x tablecomp); the driver builds and reads real archives (31 files, "
-                  "4 spellings each, 3 absent names, listing, HET/BET/classic probe observations, re-open behind a non-zero archive offset); TLC validates every recorded event against the model.",
-    "level_note": "Codec bytes and digests are observed (token equality), not modelled. HET/BET bit-packing is not modelled (lookups of "
-                  "builder-made V3/V4 archives are observed through find_file/read_file only). Key derivation is checked on the model "
-                  "and by the round trip itself, not per trace event. ADPCM (lossy) methods: once a lossy stage was applied only result "
-                  "class and length are demanded. quick = 144 configurations (slice through version x shift in {0,3,8} x one more dimension, + 24 seed-rotated draws of the 31 104); thorough = "
-                  "the full product of version x shift x method x enc x crc x attrs (7 776) with the (listfile, tablecomp) pair rotating by coordinate sum + seed: "
-                  "four consecutive seeds enumerate the whole 31 104-configuration product.",
+                  "store-raw rule (CodecDefs), the flag word, block entries incl. the standard sector-checksum layout, FIX_KEY key derivation "
+                  "from the plain file name with the MpqCrypto reference hash, hash-table insertion and lookup by linear probing under four "
+                  "spellings of real byte-string names, absent names sharing a home slot, the V3/V4 lookup path as actions (HetProbe, "
+                  "BetVerify, ClassicFallback, Deliver) with 8-bit HET hashes and lookup3 / one-at-a-time BET hashes, HET/BET table "
+                  "compression, the reader's branch / shortcut / per-sector test, the codec limits and sector decode errors. TLC checks "
+                  "exhaustively (sector size 4, 3 files in a 4-slot hash table and 8-slot HET table, 8 lengths x 3 compressibility classes x "
+                  "6 methods x 3 encryption modes x crc; the as-coded configuration in quick; in thorough also the pre-fix configurations and "
+                  "sector size 4096 for the limit region) that the reader re-derives the writer's layout, keys agree, every spelling finds "
+                  "its block through the path the code takes, absent names are not found, and every read is exact outside NAMED deviations "
+                  "(negative control: TLC must find the F-C01-a counterexample on the pre-fix model). TLC then enumerates archive "
+                  "configurations (version x shift x method x enc x crc x attrs x listfile x tablecomp, plus V3/V4 x tablecomp x 1..40 small "
+                  "files); the driver builds and reads real archives in child processes with per-call watchdogs (31 files, 4 spellings each, "
+                  "3 absent names, listing, which tables open() loaded, HET/BET/classic probe observations, re-open behind a non-zero archive "
+                  "offset); TLC validates every recorded event against the model.",
+    "level_note": "Codec bytes and digests are observed (token equality), not modelled. HET/BET bit-packing is not modelled: the path is "
+                  "bound through observations (candidates, verified index, classic index, loaded tables) and through reads that go "
+                  "through BET file info. Key derivation is checked on the model and by the round trip itself, not per trace event. "
+                  "ADPCM (lossy) methods: once a lossy stage was applied only result class and length are demanded. quick = 144 "
+                  "configurations (slice through version x shift in {0,3,8} x one more dimension, + 24 seed-rotated draws of the 31 104) "
+                  "+ 160 table-length cases; thorough = the full product of version x shift x method x enc x crc x attrs (7 776) with the "
+                  "(listfile, tablecomp) pair rotating by coordinate sum + seed (four consecutive seeds enumerate the whole "
+                  "31 104-configuration product) + quick slice + 100 draws + 160 table-length cases; the non-zero-offset re-open is done "
+                  "for every archive in quick and every fourth in thorough.",
     "technique": "TLA+ writer/reader model checked by TLC; TLC-enumerated configurations replayed on the real builder/reader; trace validation by TLC",
     "design_ref": "DESIGN.md section 5, C01",
     "crates": ["c01"],
@@ -200,7 +207,8 @@ def run(ctx, cases_override=None):
     assumptions = ["names are ASCII without ';' and surrounding blanks (listfile parser trims and cuts at ';')",
                    "lossy ADPCM methods: bit-identity is not demanded once a lossy stage was applied (length and result class only); "
                    "file lengths are rounded up to whole stereo frames for ADPCM methods",
-                   "content and name classes are represented by seeded members (VERIF_SEED)"]
+                   "content and name classes are represented by seeded members (VERIF_SEED)",
+                   "a library call is a hang after 10 s (build: 120 s), an allocation beyond 1 GiB address space is an abort; both are violations"]
     return core.finish(ctx, "model_checking", cov, assumptions, bad, sig_fn=sig)
 
 
